@@ -7,7 +7,7 @@
     rather than proved: encoding/json's scanner and struct-tag decoding
     (inputs are generic trees), and the transaction engine below the row
     operations; both are exercised by the driver on corrupted inputs. *)
-From LOV Require Import Wire.Decode Wire.DecodeProofs Wire.SchemaCodecProofs Wire.SchemaCodec Wire.Operation Wire.OperationProofs Db.TotalProofs Upd.Merge.
+From LOV Require Import Wire.Decode Wire.DecodeProofs Wire.SchemaCodecProofs Wire.SchemaCodec Wire.Operation Wire.OperationProofs Wire.Messages Wire.MessagesProofs Db.TotalProofs Upd.Merge.
 
 Theorem C19_notation_total : forall fuel v, is_panic (notation fuel v) = false.
 Proof. exact notation_never_panics. Qed.
@@ -52,6 +52,28 @@ Print Assumptions C19_column_total.
 Theorem C19_operation_total : forall fuel v, is_panic (dec_op fuel v) = false.
 Proof. exact dec_op_never_panics. Qed.
 Print Assumptions C19_operation_total.
+
+(** table updates of both formats, monitor replies (a table-updates object, or
+    the monitor_cond_since triple), operation results and monitor requests *)
+Theorem C19_table_updates_total : forall fuel v, is_panic (dec_tables (dec_ru fuel) v) = false.
+Proof. intros fuel v. apply dec_tables_never_panics, dec_ru_never_panics. Qed.
+Print Assumptions C19_table_updates_total.
+
+Theorem C19_table_updates2_total : forall fuel v, is_panic (dec_tables (dec_ru2 fuel) v) = false.
+Proof. intros fuel v. apply dec_tables_never_panics, dec_ru2_never_panics. Qed.
+Print Assumptions C19_table_updates2_total.
+
+Theorem C19_monitor_cond_since_reply_total : forall fuel v, is_panic (dec_since fuel v) = false.
+Proof. exact dec_since_never_panics. Qed.
+Print Assumptions C19_monitor_cond_since_reply_total.
+
+Theorem C19_result_total : forall fuel v, is_panic (dec_result fuel v) = false.
+Proof. exact dec_result_never_panics. Qed.
+Print Assumptions C19_result_total.
+
+Theorem C19_monitor_request_total : forall fuel v, is_panic (dec_monreq fuel v) = false.
+Proof. exact dec_monreq_never_panics. Qed.
+Print Assumptions C19_monitor_request_total.
 
 (** the row operations of the engine answer every argument with a row or an error *)
 Theorem C19_row_operations_total : forall T cur op, is_panic (rop_apply T cur op) = false.
